@@ -84,3 +84,170 @@ fn coordinate_to_name_total() {
     kani::assume(row >= 0xFFFF_FFF0);
     let _ = coordinate_to_name((row, 0));
 }
+
+// ------------------------------------------------------------------------------------------------------------------
+// replace_cell_names against an oracle written from the property C15 (token based, independent of the scanner in the code):
+//  * text inside double quotes and inside single-quoted sheet names is copied;
+//  * outside, a TOKEN is a maximal run of identifier characters [A-Za-z0-9_.$] or non-ASCII bytes; a token is a cell reference iff the
+//    WHOLE token matches `$?[A-Z]{1,3}$?[0-9]{1,7}` (column <= XFD, row <= 1048576) and it is not followed by `(` (function name) or
+//    `!` (sheet name); a reference is re-spelled with its relative components moved by the offset, `$` components unchanged;
+//  * every other token and every other character is copied.
+fn o_is_tok(c: u8) -> bool {
+    c.is_ascii_alphanumeric() || c == b'_' || c == b'.' || c == b'$' || c >= 0x80
+}
+/// Some((col_abs, col, row_abs, row)) (0-based) iff the whole token is a cell reference
+fn o_parse_ref(t: &[u8]) -> Option<(bool, u32, bool, u32)> {
+    let n = t.len();
+    let mut i = 0;
+    let col_abs = i < n && t[i] == b'$';
+    if col_abs {
+        i += 1;
+    }
+    let mut col: u32 = 0;
+    let mut nl = 0;
+    while i < n && t[i] >= b'A' && t[i] <= b'Z' && nl < 4 {
+        col = col * 26 + (t[i] - b'A') as u32 + 1;
+        nl += 1;
+        i += 1;
+    }
+    if nl < 1 || nl > 3 || col > 16384 {
+        return None;
+    }
+    let row_abs = i < n && t[i] == b'$';
+    if row_abs {
+        i += 1;
+    }
+    let mut row: u32 = 0;
+    let mut nd = 0;
+    while i < n && t[i] >= b'0' && t[i] <= b'9' && nd < 8 {
+        row = row * 10 + (t[i] - b'0') as u32;
+        nd += 1;
+        i += 1;
+    }
+    if nd < 1 || nd > 7 || i != n || row < 1 || row > 1048576 {
+        return None;
+    }
+    Some((col_abs, col - 1, row_abs, row - 1))
+}
+const OMAX: usize = 48;
+fn o_translate(f: &[u8], dr: u32, dc: u32, out: &mut [u8; OMAX]) -> usize {
+    let n = f.len();
+    let mut o = 0;
+    let mut i = 0;
+    let mut in_q = false;
+    while i < n {
+        let c = f[i];
+        if c == b'"' {
+            in_q = !in_q;
+            out[o] = c;
+            o += 1;
+            i += 1;
+        } else if in_q {
+            out[o] = c;
+            o += 1;
+            i += 1;
+        } else if c == b'\'' {
+            out[o] = c;
+            o += 1;
+            i += 1;
+            while i < n && f[i] != b'\'' {
+                out[o] = f[i];
+                o += 1;
+                i += 1;
+            }
+            if i < n {
+                out[o] = f[i];
+                o += 1;
+                i += 1;
+            }
+        } else if o_is_tok(c) {
+            let st = i;
+            while i < n && o_is_tok(f[i]) {
+                i += 1;
+            }
+            let next = if i < n { f[i] } else { 0 };
+            let r = if next == b'(' || next == b'!' { None } else { o_parse_ref(&f[st..i]) };
+            match r {
+                Some((ca, col, ra, row)) => {
+                    if ca {
+                        out[o] = b'$';
+                        o += 1;
+                    }
+                    let mut l = [0u8; 3];
+                    let nl = o_letters(if ca { col } else { col + dc }, &mut l);
+                    let mut j = 0;
+                    while j < nl {
+                        out[o] = l[j];
+                        o += 1;
+                        j += 1;
+                    }
+                    if ra {
+                        out[o] = b'$';
+                        o += 1;
+                    }
+                    let mut d = [0u8; 10];
+                    let nd = o_decimal(if ra { row + 1 } else { row + dr + 1 }, &mut d);
+                    let mut j = 0;
+                    while j < nd {
+                        out[o] = d[j];
+                        o += 1;
+                        j += 1;
+                    }
+                }
+                None => {
+                    let mut j = st;
+                    while j < i {
+                        out[o] = f[j];
+                        o += 1;
+                        j += 1;
+                    }
+                }
+            }
+        } else {
+            out[o] = c;
+            o += 1;
+            i += 1;
+        }
+    }
+    o
+}
+/// the member formula must be the oracle's translation of the master formula
+fn check_shape(f: &str, dr: u32, dc: u32) {
+    let mut want = [0u8; OMAX];
+    let n = o_translate(f.as_bytes(), dr, dc, &mut want);
+    let got = replace_cell_names(f, (dr as i64, dc as i64));
+    assert!(got.is_ok());
+    let got = got.unwrap();
+    let g = got.as_bytes();
+    assert!(g.len() == n);
+    let mut i = 0;
+    while i < n {
+        assert!(g[i] == want[i]);
+        i += 1;
+    }
+}
+// Concrete formula shapes, offset (rows, cols) = (1, 2): CBMC acts as an interpreter of the real code here.  A harness with symbolic
+// characters (or several shapes in one harness, unwind 50) did not terminate in 7 min: the scanner grows two Vecs, decodes/validates
+// UTF-8 and calls to_string.  One shape per harness, unwind bound = length + 4 (a too small bound is reported as a failed unwinding assertion).
+macro_rules! shape {
+    ($name:ident, $unwind:expr, $f:expr) => {
+        #[kani::proof]
+        #[kani::unwind($unwind)]
+        fn $name() {
+            check_shape($f, 1, 2);
+        }
+    };
+}
+// expected to hold
+shape!(rcn_relative_ref, 8, "A1");
+shape!(rcn_range, 10, "A1:B2");
+shape!(rcn_absolute_and_relative, 12, "$A$1+A1");
+shape!(rcn_string_literal, 12, "\"A1\"&A1");
+shape!(rcn_function_digit_letter, 16, "DEC2BIN(A1)"); // letter+digit+letter followed by `(`
+shape!(rcn_sheet_digit_letter, 15, "Q1Sales!A1"); // sheet name with a digit followed by a letter
+// expected to fail on the pinned code (registered findings)
+shape!(rcn_mixed_col_absolute, 8, "$A1");
+shape!(rcn_mixed_row_absolute, 8, "A$1");
+shape!(rcn_function_name_with_digits, 14, "LOG10(A1)");
+shape!(rcn_sheet_name_like_cell, 10, "Q1!A1");
+shape!(rcn_non_ascii_text, 12, "\"\u{e9}\"&A1");
